@@ -150,7 +150,7 @@ def spec_call(E, name, node, st, fr):
     if name == "Sum":
         s, et = E.as_seq(E.ev(A[0], st, fr), st)
         mname = A[1].value if isinstance(A[1], ast.Constant) else ast.unparse(A[1])
-        arr, vt = measure_array(E, mname, st, fr)
+        arr, vt = measure_array(E, mname, st, fr, E.ev(A[2], st, fr) if len(A) > 2 else None)
         return V(vt, seq_ops(et).Sum(ty.zsort(vt))(s, arr))
     if name == "Cnt":
         d = E.ev(A[0], st, fr)
@@ -182,6 +182,13 @@ def spec_call(E, name, node, st, fr):
     if name in ("np_log", "np_sqrt", "pow2"):
         f = E.ufn(name, z3.RealSort(), z3.RealSort())
         return V(REAL, f(E.coerce(E.ev(A[0], st, fr), REAL).z))
+    if name == "is_nan":
+        return V(BOOL, E.coerce(E.ev(A[0], st, fr), REAL).z == z3.Const("nonfinite_nan", z3.RealSort()))
+    if name in ("np_mean", "np_percentile"):
+        sq, et = E.as_seq(E.ev(A[0], st, fr), st)
+        so = seq_ops(et)
+        f = E.ufn(name + "_" + str(so.S), so.S, *([z3.RealSort()] if name == "np_percentile" else []), z3.RealSort())
+        return V(REAL, f(sq, E.coerce(E.ev(A[1], st, fr), REAL).z) if name == "np_percentile" else f(sq))
     if name == "unknown_callable":
         f = E.ufn("unknown_callable", ty.RefSort, z3.RealSort(), z3.RealSort(), z3.RealSort())
         return V(REAL, f(E.ev(A[0], st, fr).z, E.coerce(E.ev(A[1], st, fr), REAL).z, E.coerce(E.ev(A[2], st, fr), REAL).z))
@@ -242,9 +249,27 @@ def loc_equal(E, now, was, st, fr):
     return E.eq(now, was, st, fr)
 
 
-def measure_array(E, mname: str, st, fr):
+def measure_array(E, mname: str, st, fr, pval=None):
     """Array elem->value for Sum(): either a declared measure over immutable fields or a mutable field array."""
     from .engine import V, CheckerError, Frame, fresh
+    if mname in E.spec.measure_params:
+        # an indexed family of maps: pm(p)[x] == expr(p, x)
+        cls, var, expr, t = E.spec.measures[mname]
+        pname, pt = E.spec.measure_params[mname]
+        if pval is None:
+            raise CheckerError(f"measure {mname} needs its index value: Sum(seq, '{mname}', value)")
+        if mname not in E.measure_arrays:
+            fam = z3.Function(f"measure!{mname}", ty.zsort(pt), z3.ArraySort(ty.RefSort, ty.zsort(t)))
+            x = z3.Const(f"mx!{mname}", ty.RefSort)
+            pz = z3.Const(f"mp!{mname}", ty.zsort(pt))
+            sub = Frame("measure:" + mname, "", None, None, None, spec=True, binds={var: V(ty.Ref(cls), x), pname: V(pt, pz)})
+            from .engine import State
+            tmp = State()
+            val = E.coerce(E.ev(parse_expr(expr), tmp, sub), t)
+            E.extra_axioms.append(QForAll([pz, x], z3.Select(fam(pz), x) == val.z, patterns=[z3.Select(fam(pz), x)]))
+            E.measure_arrays[mname] = (fam, t, val, x)
+        fam, t, _v, _x = E.measure_arrays[mname]
+        return fam(E.coerce(pval, pt).z), t
     if mname in E.spec.measures:
         cls, var, expr, t = E.spec.measures[mname]
         if mname not in E.measure_arrays:
@@ -307,7 +332,8 @@ def builtin_call(E, name, node, st, fr):
         v = E.ev(A[0], st, fr)
         if v.t.kind == "str":
             if isinstance(A[0], ast.Constant):
-                return V(REAL, fresh("nonfinite_" + str(A[0].value), z3.RealSort()))
+                E.abstracted.add("float('nan'/'inf'): a fixed uninterpreted real constant per spelling (never compared by the verified code)")
+                return V(REAL, z3.Const("nonfinite_" + str(A[0].value).strip().lower(), z3.RealSort()))
             f = E.ufn("str2real", ty.StrSort, z3.RealSort())
             ok = E.ufn("is_float_str", ty.StrSort, z3.BoolSort())
             E.raise_edge(fr, st, z3.Not(ok(v.z)), "ValueError", f"L{node.lineno}")
